@@ -45,7 +45,7 @@ def run(workdir: str, module: str, cfg: str, *, workers: int = 1, env: dict | No
         args: list[str] | None = None, timeout: int = 1500, heap: str = "4g") -> str:
     """Run TLC; returns stdout+stderr. Raises TLCError on a machinery failure."""
     meta = tempfile.mkdtemp(prefix="meta-", dir=workdir)
-    cmd = ["java", f"-Xmx{heap}", "-XX:+UseParallelGC", "-cp", _classpath(), "tlc2.TLC",
+    cmd = ["java", f"-Xmx{heap}", "-XX:+UseParallelGC", f"-Djava.io.tmpdir={meta}", "-cp", _classpath(), "tlc2.TLC",
            "-workers", str(workers), "-metadir", meta, "-noGenerateSpecTE", "-config", cfg]
     cmd += args or []
     cmd.append(module)
